@@ -113,6 +113,34 @@ func modelLine(c *Case) string {
 		if c.ArgSrc != "" {
 			return "" // arguments from a nested call: the outer arms, not modelled per argument
 		}
+		if c.Ctx == "condloop" {
+			// the results of the successive calls (the callee returns its first argument, or its negation)
+			rs := []string{"results"}
+			for _, b := range c.Seq {
+				r := b
+				switch {
+				case c.Dir == "meth":
+					nx := len(c.Args) - 1
+					if c.Spread {
+						nx = len(c.Args[len(c.Args)-1].Elts)
+					}
+					r = b != (nx == 1)
+				case c.Body != nil && len(c.Body.Rets) == 1 && c.Body.Rets[0].Op == "not":
+					r = !b
+				}
+				rs = append(rs, b01(r))
+			}
+			// `&&` / `||` with the call as left operand read the call's frame cell again (observed; cfg.go), the other consumers
+			// only follow the branch; through `call` (a callee of script-written function type) the arm of callBin is not used
+			use := "branch"
+			switch c.CondOp {
+			case "and", "or", "andassign", "orassign":
+				if !viaCall(c) {
+					use = "reread"
+				}
+			}
+			return "C07 branch " + use + " " + common.L(rs...)
+		}
 		if c.Rebind && classOf(c) == "" {
 			return "C07 hostrecv" // the receiver a method value of a host value is called with
 		}
@@ -175,6 +203,8 @@ func modelLine(c *Case) string {
 			ctx = "(ret 0)"
 		case "retpos":
 			ctx = "(ret 1)"
+		case "cond":
+			ctx = "(cond)"
 		}
 		return fmt.Sprintf("C07 call (recv %s %s %s) %s %s %s %s (velem %s) %s %s %d",
 			b01(hasRecv), b01(isIface), b01(inSig), b01(c.Sig.Variadic), b01(c.Spread), b01(c.Ctx == "defer"),
